@@ -32,42 +32,11 @@ mod verif_ift_patchmap {
     }
 
 
-    // Format-1 feature map intersection (C19 "feature ... conditions intersect", C20 / C01 totality) on a mapping table whose
-    // header is fixed and whose single feature record has ANY first-new-entry index, 0..=2 entry-map records of ANY bytes:
-    // never overflows or indexes out of bounds whatever the counts / indices are, and creates no entry when no glyph-map
-    // entry intersected. (A wider harness - arbitrary header bytes, a requested tag set, a pre-existing entry - did not finish in
-    // 2400 s, nor did a feature map of 21 arbitrary bytes in 1800 s.)
-    //@harness unit=U19.4 props=C19,C20,C01 tier=quick level=bounded bound="one fixed 92-byte mapping table (maxEntryIndex 256, one feature record with two entry-map records) in which only the first-new-entry index varies (0xFFFF, 0xFFFE or 11); all features requested; no pre-existing entries" timeout=1800 fns=intersect_format1_feature_map,FeatureMap::entry_records_size
-    #[kani::proof]
-    #[kani::unwind(8)]
-    fn format1_feature_map_total() {
-        let mut b = [0u8; 92];
-        b[0] = 1; // format
-        b[21] = 1; // maxEntryIndex = 256: two-byte entry indices, 33 bitmap bytes
-        b[24] = 10; // maxGlyphMapEntryIndex
-        b[27] = 1; // glyphCount
-        b[31] = 72; // glyphMapOffset
-        b[35] = 74; // featureMapOffset
-        // 36..69 applied-entries bitmap, 69..71 uriTemplateLength = 0, 71 patch format
-        b[71] = 3;
-        b[73] = 1; // glyph map: firstMappedGlyph = glyphCount, no entries
-        // feature map: ONE record ('liga', ANY first-new-entry index, two entry-map records [0,0] and [0,0])
-        b[75] = 1; // featureCount
-        b[76..80].copy_from_slice(b"liga");
-        // firstNewEntryIndex: one of the boundary values (a fully symbolic index exhausted 16 GB in CBMC)
-        let first_new: u16 = if kani::any() { 0xFFFF } else if kani::any() { 0xFFFE } else { 11 };
-        b[80] = (first_new >> 8) as u8;
-        b[81] = first_new as u8;
-        b[83] = 2; // entryMapCount
-        let map = PatchMapFormat1::read(FontData::new(&b)).unwrap();
-        let mut entries: BTreeMap<u16, SubsetDefinition> = BTreeMap::new();
-        let r = intersect_format1_feature_map::<false>(&map, &FeatureSet::All, &mut entries);
-        assert!(entries.is_empty());
-        assert!(r.is_ok()); // the entry-map records are always in bounds
-        kani::cover!(b[80] == 0xFF && b[81] == 0xFF);
-        kani::cover!(b[80] == 0 && b[81] == 11);
-    }
-
+    // NOTE: harnesses for intersect_format1_feature_map (format-1 feature map intersection) did not finish: arbitrary header bytes + a
+    // requested tag set + one pre-existing entry (2400 s); a fixed header with a feature map of 21 arbitrary bytes (1800 s); a fixed
+    // table in which only the first-new-entry index is symbolic (16 GB); three concrete index values (> 13 min, 10 GB, stopped).
+    // Kept, unclaimed, in attic/c19_format1_feature_map.proofs.rs.txt. Writing them exposed genuine defect F9 (u16 arithmetic on
+    // font-controlled entry indices), which is demonstrated by a native replay instead (findings/F9_feature_map_overflow.rs).
     // NOTE: Kani harnesses for Entry::design_space_intersects (two axes, HashMap<Tag, RangeSet<Fixed>> on both sides) did not finish in
     // 1800 s even with a single symbolic value; the function is proved in the Verus unit U19.5 instead (attic/c19_design_space_intersects.proofs.rs.txt).
     // NOTE: a harness decoding one whole entry (decode_format2_entry on <= 12 arbitrary bytes after one prior entry) did not
